@@ -4,12 +4,18 @@ set -e
 cd "$(dirname "$0")/.."
 . tools/goenv.sh
 mkdir -p build evidence
-( cd coq && coq_makefile -f _CoqProject -o Makefile && timeout 3000 make -j16 )
 python3 - <<'PY'
-import sys, os
+import sys
 sys.path.insert(0, "tools")
 import check
 from props import PROPS
+check.coq_makefile()
+targets = sorted({f[:-2] + ".vo" for p in PROPS.values() for f in p["coq"]})
+ok, out = check.coq_build(targets)
+print(out[-3000:])
+if not ok:
+    print("coq build FAILED")
+    sys.exit(1)
 bins = sorted({s["bin"] for p in PROPS.values() for s in p["suites"]})
 for b in bins:
     ok, out, path = check.go_build(b)
